@@ -177,3 +177,147 @@ def ref_digest(coin, b: bytes) -> bytes:
     """ids: double SHA-256; the Groestlcoin transaction class hashes once"""
     d = hashlib.sha256(b).digest()
     return d if coin == "grs" else hashlib.sha256(d).digest()
+
+
+# ------------------------------------------------------------------ histories on ONE Tx object
+# steps joined by "!", arguments by "=" (see lean/Pycoin/DriverLib/History.lean)
+
+CHECK_TAGS = {
+    "txs_out = []": "txs_out_empty",
+    "txs_in = []": "txs_in_empty",
+    "tx_out value negative or out of range": "value_range",
+    "tx_out total out of range": "total_range",
+    "duplicate inputs": "duplicate_inputs",
+    "bad coinbase script size": "bad_coinbase_script_size",
+    "prevout is null": "prevout_null",
+    "spendable reused": "spendable_reused",
+    "size > MAX_TX_SIZE": "size_limit",
+}
+
+OBSERVERS = ("id", "hash", "w_id", "w_hash", "blanked", "as_bin", "bin_len", "as_hex", "as_bin_u", "check", "is_coinbase", "bad")
+
+
+def observe(tx, name):
+    """one observer on a real object, printed as the driver prints it"""
+    from pycoin.coins.exceptions import ValidationFailureError
+    try:
+        if name == "id":
+            return tx.id()
+        if name == "hash":
+            return hx(tx.hash())
+        if name == "w_id":
+            return tx.w_id()
+        if name == "w_hash":
+            return hx(tx.w_hash())
+        if name == "blanked":
+            return hx(tx.blanked_hash())
+        if name == "as_bin":
+            return hx(tx.as_bin())
+        if name == "bin_len":
+            return "%d" % len(tx.as_bin())
+        if name == "as_hex":
+            return tx.as_hex() or "-"
+        if name == "as_bin_u":
+            return hx(tx.as_bin(include_unspents=True))
+        if name == "is_coinbase":
+            return "1" if tx.is_coinbase() else "0"
+        if name == "bad":
+            if any(u is not None for u in tx.unspents):
+                return "n/a"       # real unspents: the script interpreter would run (outside this model)
+            return "%d" % tx.bad_solution_count()
+        if name == "check":
+            try:
+                tx.check()
+                return "ok"
+            except ValidationFailureError as e:
+                return CHECK_TAGS.get(str(e), "unknown_message")
+            except Exception as e:  # noqa: BLE001
+                return "raised:" + type(e).__name__
+    except Exception as e:  # noqa: BLE001
+        return "err:" + type(e).__name__
+    raise ValueError(name)
+
+
+def mutate(coin, tx, step):
+    T = TX(coin)
+    a = step.split("=")
+    k = a[0]
+    if k == "script":
+        tx.txs_in[int(a[1])].script = parse_bytes(a[2])
+    elif k == "witness":
+        tx.txs_in[int(a[1])].witness = [] if a[2] == "~" else [parse_bytes(y) for y in a[2].split("/")]
+    elif k == "setwit":
+        tx.set_witness(int(a[1]), [] if a[2] == "~" else [parse_bytes(y) for y in a[2].split("/")])
+    elif k == "seq":
+        tx.txs_in[int(a[1])].sequence = int(a[2])
+    elif k == "idx":
+        tx.txs_in[int(a[1])].previous_index = int(a[2])
+    elif k == "phash":
+        tx.txs_in[int(a[1])].previous_hash = parse_bytes(a[2])
+    elif k == "oval":
+        tx.txs_out[int(a[1])].coin_value = int(a[2])
+    elif k == "oscript":
+        tx.txs_out[int(a[1])].script = parse_bytes(a[2])
+    elif k == "addin":
+        h, i, sc, q, w = a[1].split(":")
+        t = T.TxIn(parse_bytes(h), int(i), parse_bytes(sc), int(q))
+        t.witness = [] if w == "~" else [parse_bytes(y) for y in w.split("/")]
+        tx.txs_in.append(t)
+    elif k == "delin":
+        del tx.txs_in[int(a[1])]
+    elif k == "addout":
+        val, sc = a[1].split(":")
+        tx.txs_out.append(T.TxOut(int(val), parse_bytes(sc)))
+    elif k == "delout":
+        del tx.txs_out[int(a[1])]
+    elif k == "ver":
+        tx.version = int(a[1])
+    elif k == "lock":
+        tx.lock_time = int(a[1])
+    elif k == "unspents":
+        tx.set_unspents(parse_unspents_text(coin, a[1]))
+    else:
+        raise KeyError(k)
+
+
+def fresh_copy(coin, tx):
+    """a brand-new object carrying the fields (and unspents) the object has now"""
+    T = TX(coin)
+    t2 = build_tx(coin, fields_of(tx))
+    t2.unspents = [None if u is None else T.TxOut(u.coin_value, bytes(u.script)) for u in tx.unspents]
+    return t2
+
+
+def run_history(coin, fields, steps):
+    """returns (answer line, None | how the object's answer differs from a fresh object's / from hashlib)"""
+    tx = build_tx(coin, fields)
+    answers = []
+    why = None
+    for n, st in enumerate(steps):
+        if st in OBSERVERS:
+            got = observe(tx, st)
+            answers.append(got)
+            if why is None:
+                want = observe(fresh_copy(coin, tx), st)
+                if got != want:
+                    why = "step %d: %s on the object (after its history) differs from %s on a fresh object with the same fields" % (n, st, st)
+                else:
+                    f = fields_of(tx)
+                    if fields_in_range(f) and len(f[2]) >= 1 and not got.startswith("err:"):
+                        if st in ("id", "hash"):
+                            d = ref_digest(coin, ref_legacy(f))
+                            if got != (d[::-1].hex() if st == "id" else d.hex()):
+                                why = "step %d: %s is not the digest of the current witness-stripped serialisation" % (n, st)
+                        elif st in ("w_id", "w_hash"):
+                            d = ref_digest(coin, ref_wire(f))
+                            if got != (d[::-1].hex() if st == "w_id" else d.hex()):
+                                why = "step %d: %s is not the digest of the current serialisation" % (n, st)
+                        elif st == "as_bin" and got != hx(ref_wire(f)):
+                            why = "step %d: as_bin() is not the wire form of the current fields" % n
+        else:
+            try:
+                mutate(coin, tx, st)
+                answers.append(".")
+            except (IndexError, ValueError) as e:
+                answers.append("err:" + type(e).__name__)
+    return "ok " + "!".join(answers), why
